@@ -176,8 +176,14 @@ Definition check_dnsttl_cli : rd verdict :=
       else ret (prop_ok 83 (if ttl <? 0 then okc <=? queries else queries <=? 8) [ttl; queries; okc])
   end.
 
+(* kind 9: -connect-to through the command, whatever the other dial-related flags *)
+Definition check_connectto_cli : rd verdict :=
+  ran <- getbool ;; nres <- getz ;; okc <- getz ;; served <- getz ;;
+  ret (prop_ok 64 (ran && (0 <? nres) && (okc =? nres) && (nres <=? served)) [nres; okc; served]).
+
 Definition check : rd verdict :=
   kind <- getz ;;
+  if kind =? 9 then check_connectto_cli else
   if kind =? 7 then check_guard_cli
   else if kind =? 8 then check_dnsttl_cli
   else if kind =? 1 then check_rate
